@@ -1,6 +1,7 @@
 (* C07 — only advertised terminal features are used; fallbacks are faithful.
    This file contains statements only; proofs live in proofs/. *)
-From Vx Require Import base.Prelude gen.GenPalette model.Colour proofs.ColourProofs.
+From Vx Require Import base.Prelude gen.GenPalette model.Colour model.RenderTypes model.Render model.Gate
+  proofs.ColourProofs proofs.GateProofs.
 
 (* Without RGB support a colour is sent as Color.asIndex of it.  For every 32-bit colour
    value c: a non-RGB colour is unchanged; an RGB colour becomes a palette index n with
@@ -19,6 +20,23 @@ Print Assumptions C07_fallback_colour_nearest.
 Theorem C07_palette_is_translated : colorIndex3 = map split3 colorIndex /\ zlen colorIndex = 240.
 Proof. exact (conj colorIndex3_spec eq_refl). Qed.
 Print Assumptions C07_palette_is_translated.
+
+(* Vocabulary gating.  For EVERY renderer state, every list of drawing calls and every kind of
+   frame end, every token the renderer writes is in the vocabulary the advertised capability
+   set allows: direct colour only with RGB (otherwise at most one parameter: a palette index),
+   underline colour and 4:n styles only with styled underlines (otherwise plain 4 / 24), OSC 66
+   only with explicit width, mode 2026 only with synchronized output, and only baseline SGR
+   attribute codes.  (Modes set at start-up/shutdown - kitty keyboard, 2027, 8452, 2031 - are
+   C04's lists.) *)
+Theorem C07_vocab_gated : forall (s : vstate) (ops : list op) (e : frame_end),
+  frame_allowed (v_caps s) (snd (do_frame s ops e)) = true.
+Proof. exact frame_tokens_allowed. Qed.
+Print Assumptions C07_vocab_gated.
+
+(* without RGB support every colour is sent as at most one parameter *)
+Theorem C07_no_rgb_one_param : forall cp c, cap_rgb cp = false -> zlen (col_params cp c) <= 1.
+Proof. intros cp c H. unfold col_params. rewrite H. apply fallback_params_len. Qed.
+Print Assumptions C07_no_rgb_one_param.
 
 (* non-vacuity: an RGB colour that is not a palette entry *)
 Example C07_example : is_rgb (rgb_color 1 0 0) = true /\ as_index (rgb_color 1 0 0) = index_color 16.
